@@ -119,6 +119,9 @@ func jwkForDocType(r *fw.Rand, typ string) map[string]interface{} {
 			}
 		}
 	}
+	if r.Chance(1, 10) {
+		j[fw.Pick(r, []string{"kid", "x5u", "ext"})] = nil // a member whose value is null is still a member
+	}
 	return j
 }
 
@@ -185,7 +188,10 @@ func RandService(r *fw.Rand, id string) map[string]interface{} {
 			s["accept"] = []interface{}{}
 			s["tags"] = []interface{}{[]interface{}{}, map[string]interface{}{}}
 		case 3:
-			if m, ok := s["serviceEndpoint"].(map[string]interface{}); ok {
+			if m, ok := s["serviceEndpoint"].(map[string]interface{}); ok && r.Bool() {
+				m["routingKeys"] = nil
+				s["note"] = nil
+			} else if ok {
 				m["routingKeys"] = []interface{}{}
 			} else {
 				s["recipientKeys"] = []interface{}{}
